@@ -319,6 +319,11 @@ impl VerifNotification {
         )
     }
 
+    /// Number of 5-second negotiation timers that are armed and have not fired.
+    pub fn timers_len(&self) -> usize {
+        self.protocol.timers.len()
+    }
+
     /// `pending_outbound`, sorted by substream id.
     pub fn pending_outbound(&self) -> Vec<(usize, PeerId)> {
         let mut out: Vec<(usize, PeerId)> =
